@@ -195,6 +195,18 @@ TTML_5 = b"""<?xml version="1.0" encoding="UTF-8"?>
  </body>
 </tt>
 """
+# time containers where they are unusual but allowed: timeContainer on regions, br and set-carrying elements; children under
+# elements that normally have none; sequential containers whose children never end
+TTML_6 = b"""<?xml version="1.0" encoding="UTF-8"?>
+<tt xml:lang="en" xmlns="http://www.w3.org/ns/ttml" xmlns:tts="http://www.w3.org/ns/ttml#styling" timeContainer="seq">
+ <head><layout><region xml:id="r1" timeContainer="seq" begin="1s"><set tts:opacity="0.5"/><set begin="1s" tts:opacity="1"/><style tts:color="red"/></region>
+  <region xml:id="r2" timeContainer="par" end="9s"><set tts:displayAlign="after" dur="2s"/></region></layout></head>
+ <body timeContainer="seq"><div timeContainer="seq" region="r1"><p>never ends</p><p dur="1s">after it</p></div>
+  <div region="r2"><p timeContainer="seq">a<br timeContainer="seq"><set tts:color="red"/></br>b<span timeContainer="seq" dur="2s"><set tts:color="lime"/>c<span>d</span></span></p>
+   <p begin="1s" timeContainer="seq"><span dur="1s">one</span><span>two</span><set tts:fontStyle="italic"/><span>three</span></p></div>
+ </body>
+</tt>
+"""
 # ruby markup in all the places it can turn up: nested, inside other tags, unbalanced, stray annotation tags
 VTT_2 = """WEBVTT
 
@@ -306,7 +318,7 @@ def srt_deep(depth=150):
 
 def seeds():
   """format -> list of (name, bytes)."""
-  out = {"ttml": [("hand1", TTML_1), ("hand2_ruby", TTML_2), ("hand3_cycles_subms", TTML_3), ("hand4_nested_open", TTML_4), ("hand5_nested_regions", TTML_5)], "srt": [("hand1", SRT_1), ("hand2_colours", SRT_2), ("hand3_deep_tags", srt_deep()), ("hand4_carried_tags", SRT_3), ("hand5_very_deep_tags", srt_deep(700))],
+  out = {"ttml": [("hand1", TTML_1), ("hand2_ruby", TTML_2), ("hand3_cycles_subms", TTML_3), ("hand4_nested_open", TTML_4), ("hand5_nested_regions", TTML_5), ("hand6_time_containers", TTML_6)], "srt": [("hand1", SRT_1), ("hand2_colours", SRT_2), ("hand3_deep_tags", srt_deep()), ("hand4_carried_tags", SRT_3), ("hand5_very_deep_tags", srt_deep(700))],
          "vtt": [("hand1", VTT_1), ("hand2_ruby", VTT_2)], "scc": [("hand1", SCC_1)], "stl": [("hand_cumulative", stl_hand())]}
   for f in sorted(glob.glob(RES + "/ttml/*.ttml"))[:4]:
     out["ttml"].append((os.path.basename(f), open(f, "rb").read()))
